@@ -73,3 +73,12 @@ Example C09_literals :
   dec_to_string (mkdec false 110 2) = [49; 46; 49; 48] /\ dec_to_string (mkdec false 5 3) = [48; 46; 48; 48; 53].
 Proof. vm_compute. repeat split. Qed.
 Print Assumptions C09_literals.
+
+(* printing a number and reading the text back gives the same decimal, digits and scale preserved (every non-negative decimal
+   in range; the sign is a prefix operator of the language, not part of a literal): a literal and its rendering denote the same
+   number, trailing zeros included *)
+From EE Require Import DecimalPrint.
+Theorem C09_print_read_round_trip : forall d, dneg d = false -> dmant d < two96 -> dscale d <= 28 ->
+  dec_of_string (dec_to_string d) = Some (mk false (dmant d) (dscale d)).
+Proof. exact dec_print_read. Qed.
+Print Assumptions C09_print_read_round_trip.
